@@ -55,16 +55,16 @@ class Case:
     __slots__ = ("tree", "text", "script", "supp", "fault", "obs", "ns", "rec", "tag")
 
 
-def observe(t, script, supp, fault, nv, tag=""):
+def observe(t, script, supp, fault, nv, tag="", mode="eval"):
     c = Case()
     c.tree, c.script, c.supp, c.fault, c.tag = t, script, supp, fault, tag
     c.text = render(t)
     c.ns = max(sites_of(t) + [0])
-    c.obs = run_hy(c.text, script, fault, supp, c.ns, nv=nv)
+    c.obs = run_hy(c.text, script, fault, supp, c.ns, nv=nv, mode=mode)
     return c
 
 
-def fault_variants(rng, base, nv, limit, types=(1, 2, 3), pairs=False):
+def fault_variants(rng, base, nv, limit, types=(1, 2, 3), pairs=False, mode="eval"):
     """One execution per (call in the fault-free log) x exception type."""
     log = base.obs["log"]
     seen = {}
@@ -78,7 +78,7 @@ def fault_variants(rng, base, nv, limit, types=(1, 2, 3), pairs=False):
     for (k, i) in points:
         ty = rng.choice(types)
         fl = {k: [0] * (i - 1) + [ty]}
-        out.append(observe(base.tree, base.script, base.supp, fl, nv, tag=f"fault {k}#{i}={ty}"))
+        out.append(observe(base.tree, base.script, base.supp, fl, nv, tag=f"fault {k}#{i}={ty}", mode=mode))
     if pairs and len(points) >= 2:
         for _ in range(min(limit, len(points))):
             (k1, i1), (k2, i2) = rng.sample(points, 2)
@@ -88,7 +88,7 @@ def fault_variants(rng, base, nv, limit, types=(1, 2, 3), pairs=False):
                 cur = cur + [0] * (i - len(cur))
                 cur[i - 1] = ty
                 fl[k] = cur
-            out.append(observe(base.tree, base.script, base.supp, fl, nv, tag="fault pair"))
+            out.append(observe(base.tree, base.script, base.supp, fl, nv, tag="fault pair", mode=mode))
     return out
 
 
@@ -184,17 +184,17 @@ def decide(run, cases, nv, label, explore_small=0):
     return usable
 
 
-def build_cases(run, trees, rng, nv, fault_limit, pairs=False, scripts=1):
+def build_cases(run, trees, rng, nv, fault_limit, pairs=False, scripts=1, mode="eval"):
     cases = []
     for t in trees:
         t = clone(t)
         ns, ncm = number(t)
         for _ in range(scripts):
             sc, supp = make_script(rng, t, ns, ncm)
-            base = observe(t, sc, supp, {}, nv, tag="no fault")
+            base = observe(t, sc, supp, {}, nv, tag="no fault", mode=mode)
             cases.append(base)
             if "log" in base.obs and fault_limit:
-                cases += fault_variants(rng, base, nv, fault_limit, pairs=pairs)
+                cases += fault_variants(rng, base, nv, fault_limit, pairs=pairs, mode=mode)
     return cases
 
 
